@@ -128,7 +128,7 @@ theorem start_tag_binds_each_prefix_once_fails_without_numbered_prefixes :
       fx.reserved = true → consistent (reservedOf valPfx attrs) = true →
       ((declared (startTagItems fx st ns value valPfx attrs).1).map (·.1)).Nodup := by
   intro h
-  have := h ⟨false, true, true⟩ [] none [] []
+  have := h ⟨false, true, true, true⟩ [] none [] []
     [⟨none, none, [97], [112, 58, 120], [(some [112], [50])]⟩, ⟨some [112], some [49], [98], [118], []⟩] rfl (by decide)
   revert this
   decide
@@ -160,9 +160,9 @@ theorem attr_prefix_resolves_fails_without_reserved_check :
       fx.numbered = true →
       AttrsResolve (startTagItems fx st ns value valPfx attrs).2 attrs (attrsOf (startTagItems fx st ns value valPfx attrs).1) := by
   intro h
-  have := h ⟨true, false, true⟩ [(some [113], [117, 49])] none [] []
+  have := h ⟨true, false, true, true⟩ [(some [113], [117, 49])] none [] []
     [⟨some [112], some [117, 49], [97], [113, 58, 120], [(some [113], [117, 50])]⟩] rfl
-  have e : startTagItems ⟨true, false, true⟩ [(some [113], [117, 49])] none [] []
+  have e : startTagItems ⟨true, false, true, true⟩ [(some [113], [117, 49])] none [] []
       [⟨some [112], some [117, 49], [97], [113, 58, 120], [(some [113], [117, 50])]⟩] =
       ([.decl (some [113]) [117, 50], .attr (some [113]) [97] [113, 58, 120]],
        [(some [113], [117, 50]), (some [113], [117, 49])]) := by decide
@@ -178,9 +178,9 @@ theorem attr_prefix_resolves_fails_without_numbered_prefixes :
       fx.reserved = true →
       AttrsResolve (startTagItems fx st ns value valPfx attrs).2 attrs (attrsOf (startTagItems fx st ns value valPfx attrs).1) := by
   intro h
-  have := h ⟨false, true, true⟩ [(some [112], [117, 50])] none [] []
+  have := h ⟨false, true, true, true⟩ [(some [112], [117, 50])] none [] []
     [⟨some [120], some [117, 50], [97], [118], []⟩, ⟨some [112], some [117, 49], [98], [119], []⟩] rfl
-  have e : startTagItems ⟨false, true, true⟩ [(some [112], [117, 50])] none [] []
+  have e : startTagItems ⟨false, true, true, true⟩ [(some [112], [117, 50])] none [] []
       [⟨some [120], some [117, 50], [97], [118], []⟩, ⟨some [112], some [117, 49], [98], [119], []⟩] =
       ([.attr (some [112]) [97] [118], .decl (some [112]) [117, 49], .attr (some [112]) [98] [119]],
        [(some [112], [117, 49]), (some [112], [117, 50])]) := by decide
@@ -278,7 +278,7 @@ theorem opaque_document_faithful_any_namespace_fails_without_undeclaration :
     ¬ ∀ (fx : Fixes) (forest : List ONode), fx.numbered = true → fx.reserved = true → opaqOkAnyNs forest = true →
       XmlDoc.parseDoc (printOpaqData fx forest) = some (oviewList forest) := by
   intro h
-  have := h ⟨true, true, false⟩ [.mk [97] none (some [111]) [] [] [] [.mk [98] none none [116] [(none, [])] [] []]] rfl rfl (by decide)
+  have := h ⟨true, true, false, true⟩ [.mk [97] none (some [111]) [] [] [] [.mk [98] none none [116] [(none, [])] [] []]] rfl rfl (by decide)
   have := congrArg innerName this
   revert this
   decide +kernel
@@ -312,7 +312,7 @@ theorem opaque_document_faithful_fails_without_numbered_prefixes :
     ¬ ∀ (fx : Fixes) (forest : List ONode), fx.reserved = true → opaqOk forest = true →
       XmlDoc.parseDoc (printOpaqData fx forest) = some (oviewList forest) := by
   intro h
-  have := h ⟨false, true, true⟩
+  have := h ⟨false, true, true, true⟩
     [.mk [114] none (some [111]) [] [] [⟨some [112], some [50], [107], [49], []⟩]
       [.mk [101] none (some [111]) [] [] [⟨some [120], some [50], [97], [118], []⟩, ⟨some [112], some [49], [98], [119], []⟩] []]]
     rfl (by decide)
@@ -327,7 +327,7 @@ theorem opaque_document_faithful_fails_without_reserved_check :
     ¬ ∀ (fx : Fixes) (forest : List ONode), fx.numbered = true → opaqOk forest = true →
       XmlDoc.parseDoc (printOpaqData fx forest) = some (oviewList forest) := by
   intro h
-  have := h ⟨true, false, true⟩
+  have := h ⟨true, false, true, true⟩
     [.mk [114] none (some [111]) [] [] [⟨some [113], some [49], [107], [49], []⟩]
       [.mk [101] none (some [111]) [] [] [⟨some [112], some [49], [97], [113, 58, 120], [(some [113], [50])]⟩] []]]
     rfl (by decide)
